@@ -112,7 +112,7 @@ def start_siblings(lab, k, stop):
                 while not stop.is_set() or i < 5:
                     ch.send((s, i))
                     log["sent"] += 1
-                    back = ch.receive(10)
+                    back = ch.receive(5)
                     if back == ("echo", (s, i)):
                         log["ok"] += 1
                     else:
@@ -144,7 +144,7 @@ def run_program(res: Result, lab, prog, label, hid):
             got, first_error, terminal = [], None, None
             if prog["consume"] == "waitclose_first":
                 try:
-                    ch.waitclose(10)
+                    ch.waitclose(5)
                     first_error = "waitclose returned"
                 except RemoteError as e:
                     first_error = e
@@ -153,13 +153,13 @@ def run_program(res: Result, lab, prog, label, hid):
             nremote = 0
             try:
                 while True:
-                    got.append(ch.receive(10))
+                    got.append(ch.receive(5))
             except RemoteError as e:
                 nremote += 1
                 if first_error is None:
                     first_error = e
                 try:
-                    ch.receive(10)
+                    ch.receive(5)
                     terminal = "item"
                 except EOFError:
                     terminal = "EOFError"
@@ -210,7 +210,7 @@ def run_program(res: Result, lab, prog, label, hid):
                 pairs.wait_until(lambda: Y.isclosed(), 0.25)
             perr = None
             try:
-                Y.waitclose(10)
+                Y.waitclose(5)
                 perr = "waitclose returned"
             except RemoteError as e:
                 perr = e
@@ -231,7 +231,7 @@ def run_program(res: Result, lab, prog, label, hid):
             else:
                 check_remote_error_text(res, str(perr), exc, label, m)
                 try:
-                    Y.receive(10)
+                    Y.receive(5)
                     res.violation(m("after-remoteerror-not-eoferror"), f"{label}: item")
                 except EOFError:
                     pass
@@ -299,7 +299,7 @@ def run_shard(spec):
             todo = [(ln, k, kind) for ln in lines for k in spec["ks"] for kind in KINDS]
             todo = [t for i, t in enumerate(todo) if i % spec["parts"] == spec["part"]]
         for i, (ln, k, kind) in enumerate(todo):
-            if res.enough():
+            if res.enough(4):
                 break
             if lab is None or i % 10 == 0 or not lab.gw.hasreceiver():
                 if lab is not None:
